@@ -38,6 +38,7 @@ THEOREMS = [
     "C02_history",
     "C02_history_write",
     "C02_parentheses_matter",
+    "C02_new_nodes_ready",
 ]
 
 CORPUS_DIR = os.path.join(VERIF, "corpus", "C02")
@@ -334,6 +335,9 @@ def process(chk, drv, cases, impls, outs_den, outs_model, unit):
         if "rejected" in impl:
             chk.count("rejected-by-montepy-parser:" + impl["rejected"])
             continue
+        for st in impl.get("steps", []):
+            if st.get("wrapped"):
+                chk.count("write-re-wrapped-at-the-column-limit (judged before wrapping; C10)")
         if "text" in case:
             for mark, name in (("$", "dollar-comment"), ("\nc ", "c-comment"), ("&", "ampersand"), ("\n", "line-break"), (")(", "paren-adjacent")):
                 if mark in case["text"]:
@@ -436,7 +440,7 @@ def run(chk):
         "one HalfSpace object is not shared between two trees (aliasing under in-place &=, |= is not modelled)",
         "the operator setter / del right (the __switch_operator symbol changes) are modelled for one node (unit U-switch), not inside histories",
         "shortcuts inside geometry are excluded (DESIGN 5.2)",
-        "wrapping of long lines is property C10's: geometry text is taken from the lines of Cell.format_for_mcnp_input, which stay below the line limit here",
+        "wrapping of long lines is property C10's: the geometry text is taken from the lines of Cell.format_for_mcnp_input((6,2,0)); when a line reaches the 128-column limit and wrap_string_for_mcnp re-breaks it (counted in the input distribution) the text handed to the wrapper is judged instead",
     ]
     chk.trusted_base = [
         "Lean 4.33.0 kernel",
